@@ -213,7 +213,11 @@ META_REQS = ['ok;<S>/w/a.lua', 'ok;<S>/w/a', ';<S>/w/a.lua', ';<S>/w/a', '?;<S>/
              'ok;../a', 'ok;../a.lua', 'ok;../../a', ';../init', '?;../a', 'ok;../projx/a', 'ok;..', 'a;..;b',
              ';', '?', '??', '?;?', 'a;b', 'a;', ';a', 'a?', '?a', 'a?b;c', 'ok;/init', 'ok;/',
              # home-directory forms: the require string is a package name, never a shell-style path
-             '~/a', '~/a.lua', '~/init', '~', '~/', '~/x', '~//a', 'ok;~/a', '~/w/a', '~/secret', '~/.lexaloffle/pico-8/x']
+             '~/a', '~/a.lua', '~/init', '~', '~/', '~/x', '~//a', 'ok;~/a', '~/w/a', '~/secret', '~/.lexaloffle/pico-8/x',
+             # backslashes are ordinary characters of a package name on this platform, never directory separators
+             # (<SB> = the sandbox directory spelled with backslashes)
+             '..\\a', '..\\..\\a', 'sub\\..\\..\\a', '..\\projx\\a', 'lib\\a', '<SB>\\w\\a', '<SB>\\w\\a.lua',
+             'ok;<SB>\\w\\a', '\\a', '.\\a', 'a\\']
 
 
 def generate(tier, rng):
@@ -354,8 +358,8 @@ def run_impl(case):
         out = S + '/out/o.p8'
         if os.path.exists(out):
             os.remove(out)
-        req = case['req'].replace('<S>', S)
-        fsobs.write_file(main_abs, b'm1=1\nrequire("' + req.encode() + b'")\nm2=2\n')
+        req = case['req'].replace('<SB>', S.replace('/', '\\')).replace('<S>', S)
+        fsobs.write_file(main_abs, b'm1=1\nrequire("' + req.replace('\\', '\\\\').encode() + b'")\nm2=2\n')
         arg, env = load_path(case['lp'], S)
         argv = ['build', out, '--lua', main_arg] + (['--lua-path', arg] if arg is not None else [])
         obs = {'S': S, 'cwd': cwd, 'main_arg': main_arg, 'out': out, 'lp_arg': arg, 'lp_env': env, 'req': req,
